@@ -269,7 +269,7 @@ func c06FunctionRule(p *Prog, r *Report, fam map[*ssa.Function]bool) {
 	g := p.Global("parser", "nonIdempotentFuncs")
 	uses, eq := false, false
 	eachInstr(isNon, func(in ssa.Instruction) {
-		if ld, ok := in.(*ssa.UnOp); ok && ld.X == g {
+		if ld, ok := in.(*ssa.UnOp); ok && sameGlobal(ld.X, g) {
 			uses = true
 		}
 		if c, ok := in.(*ssa.Call); ok && callIsMethod(c, "parser", "Identifier", "equal") && c.Call.Args[0] == ssa.Value(isNon.Params[0]) {
